@@ -13,6 +13,7 @@ CONSTANTS
   MaxRecs = 3
   MaxStale = 1
   MaxCollide = 1
+  Rebinds = TRUE
   MidEnv = TRUE
 VIEW view
 ACTION_CONSTRAINT Emit
